@@ -70,6 +70,7 @@ class AnonymousCommunicator(kiwipy.LocalCommunicator):
 
 def enumerate_cases(tier, scope):
     configs = [(p, loader, via, lc) for p in ('none', 'memory', 'pickle') for loader in ('default', 'custom') for via in ('direct', 'comm') for lc in ('none', 'given')]
+    configs += [(p, 'global', via, 'none') for p in ('memory', 'pickle') for via in ('direct', 'comm')]
     if scope == 'single':
         for p in ('memory', 'pickle', 'none'):
             for via in ('direct', 'comm'):
@@ -198,6 +199,10 @@ def execute(case):
         elif case['persister'] == 'pickle':
             persister = persistence.PicklePersister(tmpdir)
         loader = custom if case['loader'] in ('custom', 'registry') else None
+        if case['loader'] == 'global':
+            # the application installed its loader globally: a launcher that is not given one uses that, like the helpers
+            # that name the class in the task body do
+            loaders.set_object_loader(custom)
         with loop.as_running():
             # what the caller puts into the load context reaches the continued processes: here a communicator of its own
             ctx_comm = AnonymousCommunicator() if case.get('load_context') == 'given' else None
